@@ -22,8 +22,9 @@ def menu_fn(w):
 
 def c10_universe(tier):
     if tier == "thorough":
-        return dict(pids=[P_A, P_AB, "b"], contents=[C_ONE, C_MULTI], formats=[None, "c"])
-    return dict(pids=[P_A, P_AB], contents=[C_ONE, C_MULTI], formats=[None, "c"], sym_dirs=False)
+        return dict(pids=[P_A, P_AB, "b"], contents=[b"", C_MULTI], formats=[None, "c"], docs=(b"", D_MULTI))
+    # the first content and the first document are empty: a file of size 0 is legitimate data
+    return dict(pids=[P_A, P_AB], contents=[b"", C_MULTI], formats=[None, "c"], sym_dirs=False, docs=(b"", D_MULTI))
 
 
 def fold(run, results, prefix, w_args):
